@@ -351,8 +351,12 @@ func c16ProbeInFlight(x *X) {
 	s.rt.up["a"], s.rt.up["x"] = true, true
 	s.rt.gate["x"] = true // the probe of x blocks inside the transport
 	s.tick(2)
-	nl := [][]string{{"a"}, {"a", "b"}, {}}[x.Choose(3)]
+	nl := [][]string{{"a"}, {"a", "b"}, {}, {"c"}, {"c", "a"}}[x.Choose(5)]
 	s.rt.up["b"] = true
+	aDies := x.Choose(2) == 1
+	if aDies {
+		s.rt.up["a"] = false // no current target answers: only the late probe of the removed target succeeds
+	}
 	s.c.Update(nl...)
 	when := x.Choose(2)
 	if when == 1 {
@@ -381,7 +385,7 @@ func c16ProbeInFlight(x *X) {
 
 func init() {
 	register(&Scenario{Prop: "C16", Name: "c16/leasttime-shrink", Quick: []Bound{{0, 0}, {1, 0}}, Thorough: []Bound{{2, 0}}, Body: c16LeastTimeShrink, MaxSteps: 100000})
-	register(&Scenario{Prop: "C16", Name: "c16/probe-in-flight", Quick: []Bound{{1, 0}, {2, 0}}, Thorough: []Bound{{3, 0}}, Body: c16ProbeInFlight, MaxSteps: 100000})
+	register(&Scenario{Prop: "C16", Name: "c16/probe-in-flight", Quick: []Bound{{1, 0}, {2, 0}}, Thorough: []Bound{{3, 0}}, Body: c16ProbeInFlight, MaxSteps: 100000, BudgetQ: 30})
 	register(&Scenario{Prop: "C16", Name: "c16/seq-L3", Quick: []Bound{{0, 0}}, Thorough: []Bound{{1, 0}}, Body: c16SeqBody(3), MaxSteps: 100000})
 	register(&Scenario{Prop: "C16", Name: "c16/seq-L4", Quick: []Bound{}, Thorough: []Bound{{0, 0}}, Body: c16SeqBody(4), MaxSteps: 100000, BudgetT: 300})
 	register(&Scenario{Prop: "C16", Name: "c16/concurrent", Quick: []Bound{{1, 0}, {2, 0}}, Thorough: []Bound{{3, 0}}, Body: c16ConcBody, MaxSteps: 100000})
